@@ -95,15 +95,33 @@ public:
   void flush_sink() override {}
 };
 
-// independent reimplementation of what BackendOptions::check_printable_char documents
+// The CONFIGURED sanitisation (BackendOptions::check_printable_char), chosen per process by the parameter "printable":
+//   default : quill's default predicate (' '..'~' and '\n')
+//   strict  : a user predicate that is stricter than the default for some plain ASCII characters ('|', '"', '%', '7')
+//             and wider for others ('\t' is allowed)
+//   off     : check_printable_char = {} (no sanitisation at all)
+int g_printable_mode = 0; // 0 default, 1 strict, 2 off
+bool printable_pred(char ch)
+{
+  unsigned char u = static_cast<unsigned char>(ch);
+  if (g_printable_mode == 1)
+  {
+    if (u == '|' || u == '"' || u == '%' || u == '7') return false;
+    return (u >= 0x20 && u <= 0x7E) || u == '\n' || u == '\t';
+  }
+  return (u >= 0x20 && u <= 0x7E) || u == '\n';
+}
+// independent reimplementation of what BackendOptions::check_printable_char documents: every character the predicate
+// rejects is replaced by \xHH (two upper-case hex digits)
 std::string sanitize(std::string const& s)
 {
   static char const hex[] = "0123456789ABCDEF";
+  if (g_printable_mode == 2) return s;
   std::string o;
   o.reserve(s.size());
   for (unsigned char u : s)
   {
-    if ((u >= 0x20 && u <= 0x7E) || u == '\n') o += static_cast<char>(u);
+    if (printable_pred(static_cast<char>(u))) o += static_cast<char>(u);
     else { o += "\\x"; o += hex[u >> 4]; o += hex[u & 15]; }
   }
   return o;
@@ -721,8 +739,9 @@ long double gen_ldouble(Ctx& cx, bool finite)
 char gen_char(Ctx& cx)
 {
   Choices& c = cx.c;
-  switch (c.weighted({5, 3, 1, 1, 1, 1}))
+  switch (c.weighted({5, 3, 1, 1, 1, 1, g_printable_mode == 1 ? 2u : 0u}))
   {
+  case 6: cx.r.label("ascii_rejected_by_custom_predicate"); return "|\"%7\t"[c.pick(5)];
   case 0: return static_cast<char>('a' + c.pick(26));
   case 1: return static_cast<char>(0x20 + c.pick(95));
   case 2: cx.r.label("non_printable"); return '\0';
@@ -1090,6 +1109,10 @@ void harness_init(Params const& p)
   g_params = p;
   g_excl_brace_adjacent = excluded(p, "fmtcat.positional_format_misread_as_named");
   g_reexec_max_cases = param_int(p, "reexec_max", 10000);
+  {
+    std::string pm = param_str(p, "printable", "default");
+    g_printable_mode = pm == "strict" ? 1 : pm == "off" ? 2 : 0;
+  }
   if (std::getenv("FMTCAT_REEXEC") != nullptr && g_fork_mode && !g_replay_out.empty()) std::atexit(reexec_epilogue);
 
   for (auto fn : {&shapes_1, &shapes_2, &shapes_3, &shapes_4, &shapes_7, &shapes_5, &shapes_6, &shapes_8})
@@ -1125,6 +1148,8 @@ static void ensure_backend()
   quill::BackendOptions bo;
   bo.error_notifier = [](std::string const& m) { g_notes.push_back(m); };
   bo.log_timestamp_ordering_grace_period = std::chrono::microseconds{0};
+  if (g_printable_mode == 1) bo.check_printable_char = [](char ch) { return printable_pred(ch); };
+  else if (g_printable_mode == 2) bo.check_printable_char = {};
   g_worker->init(bo);
 
   auto sink = FFrontend::create_or_get_sink<RecordingSink>("fmtcat_recording_sink");
